@@ -887,12 +887,20 @@ func clGenConf(r *rng, cmd string, src int, s *sink) string {
 func genCL(cfg *config, r *rng, i int, s *sink) string {
 	cmd := pick(r, []string{"convert", "convert", "gopro.laptimes", "gopro.laptimes", "gopro.render", "gopro.convert"})
 	which := pick(r, []string{"explicit", "explicit", "cwd", "home", "both", "none", "missing"})
+	if cfg.prop == "C12" {
+		// the start date as the command line hands it to the converter
+		cmd = "convert"
+		which = pick(r, []string{"explicit", "cwd", "none"})
+	}
 	s.count("cl.cmd." + cmd)
 	s.count("cl.which." + which)
 	var fl []string
 	for _, o := range clCommands[cmd] {
-		if o.flag != "" && r.chance(2, 5) {
+		if o.flag != "" && (r.chance(2, 5) || (cfg.prop == "C12" && o.flag == "start-date" && r.chance(2, 3))) {
 			v := clValue(r, cmd, o, 9)
+			if cfg.prop == "C12" && (o.flag == "decoder" || o.flag == "encoder") {
+				continue
+			}
 			if o.kind == "l" && v == "~" {
 				continue
 			}
@@ -982,7 +990,7 @@ func genCL(cfg *config, r *rng, i int, s *sink) string {
 		io += " cf=json" // the same settings as a JSON document
 	}
 	tz := ""
-	if r.chance(1, 2) {
+	if r.chance(1, 2) || cfg.prop == "C12" {
 		tz = " tz=" + pick(r, []string{"America/New_York", "Asia/Kolkata", "Pacific/Auckland", "America/Los_Angeles", "Europe/London"})
 	}
 	return fmt.Sprintf("cl cmd=%s which=%s F=%s C=%s H=%s io=%s%s in=%s", cmd, which, f, c, h, io, tz, in)
